@@ -73,6 +73,10 @@ T5 = HDR + [
     ('destination', 'expr:m.destination@ == text6(o, 302, (if n - 302 >= 120 { 120 } else { n - 302 }) / 6)', 302, 120, 'C14'),
     # DTE at bit 422 when the message is complete; 'not ready' when no bit is left after the (truncated) destination
     ('dte', 'expr:(n >= 424 ==> m.dte == dte_spec(fld(o, 422, 1) as u8)) && (n < 422 && (n - 302) % 6 == 0 ==> m.dte == Dte::NotReady)', 422, 1, 'C14'),
+    # C13 names the destination among the text fields ("the decoding of its bit range": the range is the one C14 defines), and C12 names
+    # DTE among the enumerated codes: both are obligations of those properties too (round-4 change C13-u13-m2 was refuted under C14 only)
+    ('destination', 'expr:m.destination@ == text6(o, 302, (if n - 302 >= 120 { 120 } else { n - 302 }) / 6)', 302, 120, 'C13'),
+    ('dte', 'expr:(n >= 424 ==> m.dte == dte_spec(fld(o, 422, 1) as u8))', 422, 1, 'C12'),
 ]
 
 
